@@ -12,6 +12,7 @@ mod native {
             "SpeedLimitTrainSim::solve_step" => unit(o.solve_step()),
             "SpeedLimitTrainSim::solve_required_pwr" => unit(o.solve_required_pwr()),
             "SpeedLimitTrainSim::recalc_braking_points" => unit(o.recalc_braking_points()),
+            "FricBrake::set_cur_force_max_out" => unit(o.fric_brake.set_cur_force_max_out(f(&a[0]) * uc::S)),
             "SpeedLimitTrainSim::step" => unit(o.step()),
             "SpeedLimitTrainSim::get_energy_fuel" => Ok(Ok(json!(o.get_energy_fuel(b(&a[0])).get::<si::joule>()))),
             "SpeedLimitTrainSim::get_net_energy_res" => Ok(Ok(json!(o.get_net_energy_res(b(&a[0])).get::<si::joule>()))),
